@@ -1,28 +1,42 @@
 // C01: whole-message integrity on every transport under any segmentation.
-// Two real nng sockets in this process are connected over a real transport;
-// the short-I/O interposer (vfh) clamps nng's own sendmsg/readv/writev calls
-// according to a cut plan, so every partial-transfer resume path is driven.
-// Oracle: the receiver regenerates the i-th expected message (header and
-// body) from the case seed and demands exact equality, in order, no extras.
+// Modes cuts / sampled: two real nng sockets in this process are connected
+// over a real transport; the short-I/O interposer (vfh) clamps nng's own
+// sendmsg/readv/writev calls according to a cut plan, so every
+// partial-transfer resume path is driven.  Oracle: the receiver regenerates
+// the i-th expected message (header and body) from the case seed and demands
+// exact equality, in order, no extras.
+// Mode wire: one nng socket against a raw peer that speaks SP (and websocket)
+// by hand on a plain fd - see the section "mode wire" below.
 #include "vfh.h"
+#include <errno.h>
+#include <poll.h>
+#include <pthread.h>
+#include <stdatomic.h>
+#include <sys/socket.h>
 #include <unistd.h>
 
 typedef struct {
 	const char *name;
 	vf_open_fn  open_a, open_b;
 	bool        bidir;
-	int         kind; // 0 cooked, 1 pair1 raw, 2 xreq->xrep raw
+	int         kind; // 0 cooked, 1 pair1 raw, 2 raw request/reply style (xreq->xrep, xsurveyor->xrespondent)
+	bool        lock; // lossy protocol: one message at a time, so that nothing may legitimately be dropped
 } pairdesc;
 
 static const pairdesc pairs[] = {
-	{ "pair0", nng_pair0_open, nng_pair0_open, true, 0 },
-	{ "pair1", nng_pair1_open, nng_pair1_open, true, 0 },
-	{ "pair1raw", nng_pair1_open_raw, nng_pair1_open_raw, true, 1 },
-	{ "pushpull", nng_push0_open, nng_pull0_open, false, 0 },
-	{ "xreqxrep", nng_req0_open_raw, nng_rep0_open_raw, true, 2 },
-	{ "pubsub", nng_pub0_open, nng_sub0_open, false, 0 },
+	{ "pair0", nng_pair0_open, nng_pair0_open, true, 0, false },
+	{ "pair1", nng_pair1_open, nng_pair1_open, true, 0, false },
+	{ "pair1raw", nng_pair1_open_raw, nng_pair1_open_raw, true, 1, false },
+	{ "pushpull", nng_push0_open, nng_pull0_open, false, 0, false },
+	{ "xreqxrep", nng_req0_open_raw, nng_rep0_open_raw, true, 2, false },
+	{ "pubsub", nng_pub0_open, nng_sub0_open, false, 0, true },
+	// BUS drops when a queue is full, raw SURVEYOR / RESPONDENT put outgoing
+	// messages into a small per-pipe queue without waiting: lock-step
+	{ "busbus", nng_bus0_open, nng_bus0_open, true, 0, true },
+	{ "xsurvxresp", nng_surveyor0_open_raw, nng_respondent0_open_raw, true, 2, true },
 };
 #define NPAIRS ((int) (sizeof(pairs) / sizeof(pairs[0])))
+#define NPAIRS_CUTS 5 // the cuts mode walks the first five (lock-step pairs are sampled only)
 
 static const size_t sizes[] = { 0, 1, 2, 7, 8, 9, 31, 32, 33, 63, 64, 65, 125,
 	126, 127, 1023, 1024, 1025, 4095, 4096, 65535, 65536, 65537 };
@@ -178,12 +192,12 @@ check_msg(const casecfg *c, int dir, int i, nng_msg *m, const expect *ex, uint32
 		// raw REQ moves the whole backtrace (up to and including the
 		// request id word) from the body into the header
 		if (hl != ex->hlen || memcmp(h, ex->hdr, hl) != 0) {
-			vf_violation("C01/raw-header", "%s dir=%d msg=%d: xreq header len %zu want %zu or words differ", where, dir, i, hl, ex->hlen);
+			vf_violation("C01/raw-header", "%s dir=%d msg=%d: raw requester header len %zu want %zu or words differ", where, dir, i, hl, ex->hlen);
 			return false;
 		}
 	} else if (pd->kind == 2) {
 		if (hl != ex->hlen || memcmp(h + 4, ex->hdr + 4, ex->hlen - 4) != 0) {
-			vf_violation("C01/raw-header", "%s dir=%d msg=%d: xrep header len %zu want %zu or words differ", where, dir, i, hl, ex->hlen);
+			vf_violation("C01/raw-header", "%s dir=%d msg=%d: raw replier header len %zu want %zu or words differ", where, dir, i, hl, ex->hlen);
 			return false;
 		}
 		uint32_t pw = ((uint32_t) h[0] << 24) | ((uint32_t) h[1] << 16) | ((uint32_t) h[2] << 8) | h[3];
@@ -215,6 +229,16 @@ check_msg(const casecfg *c, int dir, int i, nng_msg *m, const expect *ex, uint32
 	}
 	free(want);
 	return true;
+}
+
+static atomic_int added_a, added_b;
+
+static void
+pipe_added_cb(nng_pipe p, nng_pipe_ev ev, void *arg)
+{
+	(void) p;
+	(void) ev;
+	atomic_fetch_add((atomic_int *) arg, 1);
 }
 
 static void
@@ -254,6 +278,14 @@ run_case(long idx, const casecfg *c)
 		nng_socket_set_int(b, NNG_OPT_MAXTTL, 15);
 	}
 	if (!strcmp(pd->name, "pubsub")) nng_sub0_socket_subscribe(b, "", 0);
+	atomic_store(&added_a, 0);
+	atomic_store(&added_b, 0);
+	if (pd->lock) {
+		// a lossy protocol drops what is sent before its pipe has been
+		// started: wait for the ADD_POST event, which comes after that
+		nng_pipe_notify(a, NNG_PIPE_EV_ADD_POST, pipe_added_cb, &added_a);
+		nng_pipe_notify(b, NNG_PIPE_EV_ADD_POST, pipe_added_cb, &added_b);
+	}
 	// the plan is active during connection setup too (handshake bytes)
 	vf_io_plan(c->smode, c->sparam, c->rmode, c->rparam, c->key);
 	vf_io_eagain_every(c->eagain);
@@ -266,11 +298,14 @@ run_case(long idx, const casecfg *c)
 		return;
 	}
 	if (!strcmp(pd->name, "pubsub")) vf_msleep(20);
+	for (int i = 0; pd->lock && (atomic_load(&added_a) < 1 || atomic_load(&added_b) < 1); i++) {
+		if (i > 10000) vf_harness_fail("%s over %s: pipes were never added", pd->name, vf_tran_names[c->tran]);
+		vf_msleep(1);
+	}
 	long ss0 = vf_io_short_sends(), sr0 = vf_io_short_recvs();
-	int window = 4;
+	int window = pd->lock ? 1 : 4;
 	for (int base = 0; base < c->nmsgs && ok; base += window) {
 		int n = c->nmsgs - base < window ? c->nmsgs - base : window;
-		if (!strcmp(pd->name, "pubsub")) n = 1;
 		for (int dir = 0; dir < (pd->bidir ? 2 : 1) && ok; dir++) {
 			nng_socket tx = dir == 0 ? a : b, rx = dir == 0 ? b : a;
 			for (int j = 0; j < n; j++) {
@@ -302,7 +337,6 @@ run_case(long idx, const casecfg *c)
 				}
 			}
 		}
-		if (!strcmp(pd->name, "pubsub")) window = 1;
 	}
 	if (ok) {
 		// nothing extra may arrive, on either side, once everything that
@@ -333,6 +367,1113 @@ run_case(long idx, const casecfg *c)
 	}
 }
 
+// ======================================================================
+// mode wire: ONE nng socket <-> a raw peer that the harness implements on a
+// plain fd.  The peer speaks SP by hand, so that an error nng makes the same
+// way when sending and when receiving cannot cancel out:
+//  * peer -> nng: the peer composes the byte stream of N well-formed frames
+//    and decides itself how the stream is cut into write() calls; the nng
+//    application must receive exactly those N messages;
+//  * nng -> peer: a strict framer checks every byte nng puts on the wire.
+// nng's own reads and writes are clamped by the interposer at the same time.
+// ======================================================================
+enum { WH_NONE, WH_PAIR1, WH_PAIR1RAW, WH_BUSRAW, WH_XREQ, WH_XREP, WH_REQ, WH_REP };
+enum { WF_NONE, WF_STREAM, WF_LOCK };
+enum { WR_PHASES, WR_OUT_IN, WR_IN_OUT };
+enum { SEG_ONE, SEG_DRIBBLE, SEG_CHUNKS, SEG_CUT, SEG_N };
+static const char *seg_names[SEG_N] = { "one", "dribble", "chunks", "cut" };
+
+typedef struct {
+	const char *name;  // discriminator in keys and classes
+	const char *proto; // nng side, name in vf_protos[]
+	bool        raw;
+	int         in;  // peer -> nng: none / whole stream at once / one frame at a time
+	int         out; // nng -> peer: none / windows of 4 / one message at a time
+	int         rounds;
+	int         hk; // which SP header travels in front of the body
+} wentry;
+
+// Lock-step where the protocol may legitimately drop: PUB/SUB and BUS drop when
+// a queue is full; raw REP, raw SURVEYOR and raw RESPONDENT move outgoing
+// messages into a per-pipe queue without waiting (nni_msgq_tryput).
+static const wentry wents[] = {
+	{ "pair0", "pair0", false, WF_STREAM, WF_STREAM, WR_PHASES, WH_NONE },
+	{ "pair1", "pair1", false, WF_STREAM, WF_STREAM, WR_PHASES, WH_PAIR1 },
+	{ "pair1raw", "pair1", true, WF_STREAM, WF_STREAM, WR_PHASES, WH_PAIR1RAW },
+	{ "push", "push", false, WF_NONE, WF_STREAM, WR_PHASES, WH_NONE },
+	{ "pull", "pull", false, WF_STREAM, WF_NONE, WR_PHASES, WH_NONE },
+	{ "pub", "pub", false, WF_NONE, WF_LOCK, WR_PHASES, WH_NONE },
+	{ "sub", "sub", false, WF_LOCK, WF_NONE, WR_PHASES, WH_NONE },
+	{ "bus", "bus", false, WF_LOCK, WF_LOCK, WR_PHASES, WH_NONE },
+	{ "busraw", "bus", true, WF_LOCK, WF_LOCK, WR_PHASES, WH_BUSRAW },
+	{ "req", "req", false, WF_LOCK, WF_LOCK, WR_OUT_IN, WH_REQ },
+	{ "rep", "rep", false, WF_LOCK, WF_LOCK, WR_IN_OUT, WH_REP },
+	{ "surveyor", "surveyor", false, WF_LOCK, WF_LOCK, WR_OUT_IN, WH_REQ },
+	{ "respondent", "respondent", false, WF_LOCK, WF_LOCK, WR_IN_OUT, WH_REP },
+	{ "xreq", "req", true, WF_STREAM, WF_STREAM, WR_PHASES, WH_XREQ },
+	{ "xrep", "rep", true, WF_STREAM, WF_LOCK, WR_PHASES, WH_XREP },
+	{ "xsurveyor", "surveyor", true, WF_STREAM, WF_LOCK, WR_PHASES, WH_XREQ },
+	{ "xrespondent", "respondent", true, WF_STREAM, WF_LOCK, WR_PHASES, WH_XREP },
+};
+#define NWENTS ((int) (sizeof(wents) / sizeof(wents[0])))
+
+// ws://: the peer produces, the nng application receives.  SUB and BUS get a
+// receive buffer that holds all N messages (the stream comes in one piece).
+static const wentry wents_ws[] = {
+	{ "ws-pull", "pull", false, WF_STREAM, WF_NONE, WR_PHASES, WH_NONE },
+	{ "ws-sub", "sub", false, WF_STREAM, WF_NONE, WR_PHASES, WH_NONE },
+	{ "ws-pair0", "pair0", false, WF_STREAM, WF_NONE, WR_PHASES, WH_NONE },
+	{ "ws-pair1", "pair1", false, WF_STREAM, WF_NONE, WR_PHASES, WH_PAIR1 },
+	{ "ws-bus", "bus", false, WF_STREAM, WF_NONE, WR_PHASES, WH_NONE },
+};
+#define NWENTS_WS ((int) (sizeof(wents_ws) / sizeof(wents_ws[0])))
+
+#define WMAXHDR 64
+typedef struct {
+	uint8_t  wire[WMAXHDR]; // SP header bytes that travel in front of the body
+	size_t   wlen;
+	uint8_t  app[WMAXHDR + 4]; // nng_msg header the application supplies (out) / must see (in)
+	size_t   alen;
+	bool     app_judged; // in: the received nng_msg header is specified (raw sockets)
+	int      pipe_slot;  // offset in app[] of the pipe id word, -1 none
+	bool     id_open;    // out: wire[] is one id word chosen by nng, only the high bit is specified
+	size_t   blen;
+	uint64_t bkey;
+} wmsg;
+
+typedef struct {
+	casecfg         c;
+	const wentry   *e;
+	const vf_proto *vp;
+	bool            nng_listens;
+	int             seg;
+	long            segparam;
+	nng_socket      s;
+	nng_aio        *aio;
+	int             fd;
+	bool            ipc;
+	uint32_t        pipe_id; // id of the one pipe, learned from received messages
+	bool            failed;
+	atomic_int      added;
+	vf_rng          r; // cut positions
+	long            in_ok, out_ok, coalesced, cuts, cuts_prefix, cuts_header, cuts_body, writes;
+	bool            ws;     // websocket variant
+	int             wsfrag; // 0 one frame per message, 1 fragments, 2 fragments and PINGs
+	long            ws_behind, ws_straddle, ws_fragments, ws_pings;
+} wctx;
+
+#define WV(w, dir, what, ...) \
+	do { \
+		char k_[96]; \
+		snprintf(k_, sizeof(k_), "C01/wire-%s/%s/%s", dir, what, (w)->e->name); \
+		vf_violation(k_, __VA_ARGS__); \
+		(w)->failed = true; \
+	} while (0)
+
+static void
+put_be32(uint8_t *p, uint32_t v)
+{
+	p[0] = (uint8_t) (v >> 24);
+	p[1] = (uint8_t) (v >> 16);
+	p[2] = (uint8_t) (v >> 8);
+	p[3] = (uint8_t) v;
+}
+
+static uint32_t
+get_be32(const uint8_t *p)
+{
+	return ((uint32_t) p[0] << 24) | ((uint32_t) p[1] << 16) | ((uint32_t) p[2] << 8) | p[3];
+}
+
+static const char *
+wwhere(const wctx *w)
+{
+	static char buf[160];
+	snprintf(buf, sizeof(buf), "%s/%s %s peer=%s%s plan=%s", vf_tran_names[w->c.tran], w->e->name, w->nng_listens ? "nng-listens" : "nng-dials", seg_names[w->seg], w->wsfrag == 2 ? "+frag+ping" : w->wsfrag ? "+frag" : "", w->c.plan);
+	return buf;
+}
+
+// Message i of direction dir (0: peer -> nng, 1: nng -> peer).
+static void
+wire_gen(const wctx *w, int dir, int i, wmsg *m)
+{
+	uint64_t k = vf_mix64(w->c.key + (uint64_t) (dir + 3) * 1000003 + (uint64_t) i);
+	memset(m, 0, sizeof(*m));
+	m->blen      = msg_size(&w->c, dir, i);
+	m->bkey      = k;
+	m->pipe_slot = -1;
+	switch (w->e->hk) {
+	case WH_NONE:
+		break;
+	case WH_PAIR1:
+		// cooked PAIR1 sends hop count 1; it accepts what is <= MAXTTL
+		put_be32(m->wire, dir == 0 ? 1 + (uint32_t) (k % 15) : 1);
+		m->wlen = 4;
+		break;
+	case WH_PAIR1RAW:
+		if (dir == 0) {
+			// the hop word is moved into the header as it was received
+			put_be32(m->wire, 1 + (uint32_t) (k % 15));
+			memcpy(m->app, m->wire, 4);
+			m->app_judged = true;
+		} else {
+			// and incremented when sent
+			put_be32(m->app, (uint32_t) (k % 14));
+			put_be32(m->wire, (uint32_t) (k % 14) + 1);
+		}
+		m->wlen = m->alen = 4;
+		break;
+	case WH_BUSRAW:
+		if (dir == 0) {
+			// raw BUS puts the id of the receiving pipe into the header
+			m->alen       = 4;
+			m->pipe_slot  = 0;
+			m->app_judged = true;
+		} else {
+			// a first header word names the pipe that must not get
+			// the message; it is stripped.  None, nobody, or some
+			// id that is not our pipe's.
+			switch ((k >> 8) % 3) {
+			case 0:
+				break;
+			case 1:
+				put_be32(m->app, 0);
+				m->alen = 4;
+				break;
+			default:
+				put_be32(m->app, w->pipe_id ? (w->pipe_id ^ 1u) : 0);
+				m->alen = 4;
+				break;
+			}
+		}
+		break;
+	case WH_XREQ:
+	case WH_XREP: {
+		// a backtrace of 1..15 words, the last one (request id) has the
+		// high bit.  Raw REQ / SURVEYOR: header = the words.  Raw REP /
+		// RESPONDENT: header = pipe id word, then the words; on send the
+		// pipe id word is consumed for routing.
+		int    nw  = 1 + (int) ((k >> 20) % 15);
+		size_t off = 0;
+		if (w->e->hk == WH_XREP) {
+			m->pipe_slot = 0;
+			off          = 4;
+		}
+		for (int j = 0; j < nw; j++) {
+			uint32_t v = (uint32_t) vf_mix64(k + 77 + (uint64_t) j);
+			if (j == nw - 1) v |= 0x80000000u; else v &= 0x7fffffffu;
+			put_be32(m->wire + 4 * j, v);
+			put_be32(m->app + off + 4 * j, v);
+		}
+		m->wlen       = 4 * (size_t) nw;
+		m->alen       = off + 4 * (size_t) nw;
+		m->app_judged = dir == 0;
+		break;
+	}
+	case WH_REQ:
+		// cooked REQ / SURVEYOR: one id word with the high bit, chosen by
+		// nng; the answer carries the same word (filled in by the caller)
+		m->wlen    = 4;
+		m->id_open = dir == 1;
+		break;
+	case WH_REP:
+		// cooked REP / RESPONDENT: the request arrives with k words without
+		// and one with the high bit; the reply must carry exactly these
+		// (dir 1: copied from the request by the caller)
+		if (dir == 0) {
+			int nw = 1 + (int) ((k >> 20) % 7);
+			for (int j = 0; j < nw; j++) {
+				uint32_t v = (uint32_t) vf_mix64(k + 77 + (uint64_t) j);
+				if (j == nw - 1) v |= 0x80000000u; else v &= 0x7fffffffu;
+				put_be32(m->wire + 4 * j, v);
+			}
+			m->wlen = 4 * (size_t) nw;
+		}
+		break;
+	}
+}
+
+// ---------------------------------------------------------------- peer writer
+// Runs in its own thread (the application must be able to receive while the
+// peer is still writing, or both would wait for each other once the kernel
+// buffers are full).  Plain write() calls: never touched by the interposer.
+typedef struct {
+	int            fd;
+	const uint8_t *buf;
+	size_t         len;
+	int            seg;
+	long           param;
+	uint64_t       seed;
+	const size_t  *ends; // offset of the end of every frame
+	int            nends;
+	int            err; // errno of the write that failed
+	size_t         written;
+	long           writes;
+	bool           coalesced; // one write() carried at least two complete frames
+	pthread_t      th;
+} wjob;
+
+static bool
+wjob_write(wjob *j, size_t off, size_t n)
+{
+	if (n >= 16 && !j->coalesced) {
+		int full = 0;
+		for (int f = 0; f < j->nends; f++) {
+			size_t st = f ? j->ends[f - 1] : 0;
+			if (st >= off && j->ends[f] <= off + n) full++;
+		}
+		if (full >= 2) j->coalesced = true;
+	}
+	j->writes++;
+	while (n > 0) {
+		ssize_t r = write(j->fd, j->buf + off, n);
+		if (r > 0) {
+			off += (size_t) r;
+			n -= (size_t) r;
+			j->written += (size_t) r;
+			continue;
+		}
+		if (r < 0 && errno == EINTR) continue;
+		if (r < 0 && errno == EAGAIN) {
+			struct pollfd p = { j->fd, POLLOUT, 0 };
+			poll(&p, 1, 1000);
+			continue;
+		}
+		j->err = r < 0 ? errno : EIO;
+		return false;
+	}
+	return true;
+}
+
+static void *
+wjob_main(void *arg)
+{
+	wjob  *j = arg;
+	vf_rng r;
+	size_t off = 0;
+	vf_rng_seed(&r, j->seed, 4711);
+	switch (j->seg) {
+	case SEG_ONE:
+		wjob_write(j, 0, j->len);
+		break;
+	case SEG_DRIBBLE:
+		while (off < j->len) {
+			size_t n = 1 + vf_below(&r, 7);
+			if (n > j->len - off) n = j->len - off;
+			if (!wjob_write(j, off, n)) break;
+			off += n;
+		}
+		break;
+	case SEG_CHUNKS: {
+		// a handful of 1 ms pauses per stream, wherever they fall
+		uint32_t every = (uint32_t) (j->len / ((size_t) j->param / 2 + 1) / 6 + 1);
+		int      pauses = 0;
+		while (off < j->len) {
+			size_t n = 1 + vf_below(&r, (uint32_t) j->param);
+			if (n > j->len - off) n = j->len - off;
+			if (!wjob_write(j, off, n)) break;
+			off += n;
+			if (off < j->len && pauses < 8 && vf_below(&r, every) == 0) {
+				vf_msleep(1);
+				pauses++;
+			}
+		}
+		break;
+	}
+	default: {
+		size_t cut = (size_t) j->param;
+		if (cut == 0 || cut >= j->len) {
+			wjob_write(j, 0, j->len);
+			break;
+		}
+		if (!wjob_write(j, 0, cut)) break;
+		vf_msleep(3); // nng really sees the partial frame
+		wjob_write(j, cut, j->len - cut);
+		break;
+	}
+	}
+	return NULL;
+}
+
+// Compose the byte stream of n frames.
+static uint8_t *
+wire_stream(const wctx *w, const wmsg *ms, int n, size_t *lenp, size_t *ends)
+{
+	size_t pl = w->ipc ? 9 : 8, total = 0;
+	for (int i = 0; i < n; i++) total += pl + ms[i].wlen + ms[i].blen;
+	uint8_t *buf = malloc(total + 1), *p = buf;
+	if (buf == NULL) vf_harness_fail("stream of %zu bytes", total);
+	for (int i = 0; i < n; i++) {
+		uint64_t l = ms[i].wlen + ms[i].blen;
+		if (w->ipc) *p++ = 1;
+		for (int b = 7; b >= 0; b--) *p++ = (uint8_t) (l >> (8 * b));
+		memcpy(p, ms[i].wire, ms[i].wlen);
+		p += ms[i].wlen;
+		vf_fill(p, ms[i].blen, ms[i].bkey);
+		p += ms[i].blen;
+		ends[i] = (size_t) (p - buf);
+	}
+	*lenp = total;
+	return buf;
+}
+
+// Where the single cut goes: inside a length prefix, right behind it, inside
+// the SP header, inside the body, one byte before the end of a frame, or
+// exactly between two frames.
+static size_t
+wire_pick_cut(wctx *w, const wmsg *ms, int n, const size_t *ends, size_t len, int *kind)
+{
+	size_t pl = w->ipc ? 9 : 8;
+	*kind = -1;
+	if (len < 2) return 0;
+	for (int tries = 0; tries < 16; tries++) {
+		int    f  = (int) vf_below(&w->r, (uint32_t) n);
+		size_t st = f ? ends[f - 1] : 0, fl = ends[f] - st, pos;
+		int    kd;
+		switch (vf_below(&w->r, 6)) {
+		case 0: pos = 1 + vf_below(&w->r, (uint32_t) pl - 1); kd = 0; break;
+		case 1: pos = pl; kd = pl == fl ? 3 : 0; break;
+		case 2:
+			if (ms[f].wlen == 0) continue;
+			pos = pl + 1 + vf_below(&w->r, (uint32_t) ms[f].wlen);
+			kd  = pos < pl + ms[f].wlen ? 1 : pos == fl ? 3 : 2;
+			break;
+		case 3:
+			if (ms[f].blen < 2) continue;
+			pos = pl + ms[f].wlen + 1 + vf_below(&w->r, (uint32_t) ms[f].blen - 1);
+			kd  = 2;
+			break;
+		case 4: pos = fl - 1; kd = pos < pl ? 0 : pos < pl + ms[f].wlen ? 1 : 2; break;
+		default: pos = fl; kd = 3; break;
+		}
+		if (st + pos == 0 || st + pos >= len) continue;
+		*kind = kd;
+		return st + pos;
+	}
+	*kind = 2;
+	return len / 2; // (classification not needed for this fallback)
+}
+
+static nng_msg *
+wire_app_msg(const wctx *w, const wmsg *m)
+{
+	nng_msg *msg;
+	if (nng_msg_alloc(&msg, m->blen) != 0) vf_harness_fail("msg alloc %zu", m->blen);
+	vf_fill(nng_msg_body(msg), m->blen, m->bkey);
+	if (m->alen > 0) {
+		uint8_t h[WMAXHDR + 4];
+		memcpy(h, m->app, m->alen);
+		if (m->pipe_slot >= 0) put_be32(h + m->pipe_slot, w->pipe_id);
+		if (nng_msg_header_append(msg, h, m->alen) != 0) vf_harness_fail("header append");
+	}
+	return msg;
+}
+
+static size_t
+first_diff(const uint8_t *a, const uint8_t *b, size_t n)
+{
+	size_t o = 0;
+	while (o < n && a[o] == b[o]) o++;
+	return o;
+}
+
+// What the application received as message i of the in direction.
+static bool
+wire_check_in(wctx *w, const wmsg *m, int i, nng_msg *msg)
+{
+	const uint8_t *h  = nng_msg_header(msg);
+	size_t         hl = nng_msg_header_len(msg);
+	const uint8_t *b  = nng_msg_body(msg);
+	size_t         bl = nng_msg_len(msg);
+	if (m->app_judged) {
+		uint8_t want[WMAXHDR + 4];
+		memcpy(want, m->app, m->alen);
+		if (m->pipe_slot >= 0) {
+			uint32_t pid = (uint32_t) nng_pipe_id(nng_msg_get_pipe(msg));
+			if (w->pipe_id == 0) w->pipe_id = pid;
+			// (one connection, so one pipe for the whole case)
+			put_be32(want + m->pipe_slot, w->pipe_id);
+			if (pid != w->pipe_id || pid == 0 || (pid & 0x80000000u)) {
+				WV(w, "in", "header", "%s msg=%d: message is attributed to pipe %08x, earlier ones to %08x", wwhere(w), i, pid, w->pipe_id);
+				return false;
+			}
+		}
+		if (hl != m->alen || memcmp(h, want, hl) != 0) {
+			WV(w, "in", "header", "%s msg=%d: received header has %zu bytes, specified are %zu; first difference at %zu (peer sent %zu header bytes)", wwhere(w), i, hl, m->alen, first_diff(h, want, hl < m->alen ? hl : m->alen), m->wlen);
+			return false;
+		}
+	}
+	if (bl != m->blen) {
+		WV(w, "in", "body-length", "%s msg=%d: received %zu body bytes, peer sent %zu (after %zu header bytes)", wwhere(w), i, bl, m->blen, m->wlen);
+		return false;
+	}
+	if (bl > 0) {
+		uint8_t *want = malloc(bl);
+		vf_fill(want, bl, m->bkey);
+		if (memcmp(b, want, bl) != 0) {
+			WV(w, "in", "body-bytes", "%s msg=%d size=%zu: first difference at offset %zu", wwhere(w), i, bl, first_diff(b, want, bl));
+			free(want);
+			return false;
+		}
+		free(want);
+	}
+	w->in_ok++;
+	return true;
+}
+
+// The peer writes a stream that carries messages first..first+n-1 with its
+// own segmentation, the application receives them.
+static void
+wire_in_run(wctx *w, wmsg *ms, int first, int n, const uint8_t *buf, size_t len, const size_t *ends, long cut, int cutkind)
+{
+	wjob j = { .fd = w->fd, .buf = buf, .len = len, .seg = w->seg, .param = w->seg == SEG_CUT ? cut : w->segparam, .seed = w->c.key ^ (uint64_t) first, .ends = ends, .nends = n };
+	int  rv;
+	if (pthread_create(&j.th, NULL, wjob_main, &j) != 0) vf_harness_fail("pthread_create");
+	for (int i = 0; i < n; i++) {
+		nng_msg *msg = NULL;
+		if ((rv = recv_one(w->s, &msg, w->c.use_aio, w->aio)) != 0) {
+			WV(w, "in", "lost", "%s msg=%d of %d (stream of %d frames, %zu bytes, cut at %ld; wire header %zu + body %zu bytes): receive: %s", wwhere(w), first + i, w->c.nmsgs, n, len, w->seg == SEG_CUT ? j.param : -1L, ms[i].wlen, ms[i].blen, nng_strerror(rv));
+			break;
+		}
+		bool ok = wire_check_in(w, &ms[i], first + i, msg);
+		nng_msg_free(msg);
+		if (!ok) break;
+	}
+	if (w->failed) {
+		// the writer may be blocked in write(): take the connection away
+		shutdown(w->fd, SHUT_RDWR);
+	}
+	pthread_join(j.th, NULL);
+	if (!w->failed) {
+		if (j.err != 0 || j.written != len) vf_harness_fail("%s: peer wrote %zu of %zu bytes (%s) although everything was received", wwhere(w), j.written, len, strerror(j.err));
+		w->writes += j.writes;
+		if (j.coalesced) w->coalesced++;
+		if (cutkind >= 0 && cutkind != 3) {
+			w->cuts++;
+			if (cutkind == 0) w->cuts_prefix++;
+			if (cutkind == 1) w->cuts_header++;
+			if (cutkind == 2) w->cuts_body++;
+		}
+	}
+}
+
+static void
+wire_in(wctx *w, wmsg *ms, int first, int n)
+{
+	size_t   len, *ends = malloc(sizeof(size_t) * (size_t) n);
+	uint8_t *buf = wire_stream(w, ms, n, &len, ends);
+	int      cutkind = -1;
+	long     cut = 0;
+	if (w->seg == SEG_CUT) cut = (long) wire_pick_cut(w, ms, n, ends, len, &cutkind);
+	wire_in_run(w, ms, first, n, buf, len, ends, cut, cutkind);
+	free(buf);
+	free(ends);
+}
+
+// Strict framer for message i that nng was asked to send.  got_hdr receives
+// the SP header bytes that were really on the wire.
+static bool
+wire_read_frame(wctx *w, const wmsg *m, int i, uint8_t *got_hdr)
+{
+	uint8_t  pre[9];
+	size_t   pl = w->ipc ? 9 : 8;
+	uint64_t len = 0, want = m->wlen + m->blen;
+	long     n = vf_fd_read_full(w->fd, pre, pl, 10000);
+	if (n != (long) pl) {
+		WV(w, "out", "missing-frame", "%s msg=%d of %d: %ld of %zu length-prefix bytes arrived (expected a frame of %zu header + %zu body bytes)", wwhere(w), i, w->c.nmsgs, n, pl, m->wlen, m->blen);
+		return false;
+	}
+	if (w->ipc && pre[0] != 1) {
+		WV(w, "out", "type-octet", "%s msg=%d: ipc message type octet is 0x%02x, must be 0x01", wwhere(w), i, pre[0]);
+		return false;
+	}
+	for (size_t k = w->ipc ? 1 : 0; k < pl; k++) len = (len << 8) | pre[k];
+	if (len != want) {
+		WV(w, "out", "frame-length", "%s msg=%d: length prefix says %llu, the message has %zu header + %zu body bytes", wwhere(w), i, (unsigned long long) len, m->wlen, m->blen);
+		return false;
+	}
+	uint8_t *buf = malloc((size_t) len + 1);
+	if (buf == NULL) vf_harness_fail("frame of %llu bytes", (unsigned long long) len);
+	n = vf_fd_read_full(w->fd, buf, (size_t) len, 10000);
+	if (n != (long) len) {
+		WV(w, "out", "missing-frame", "%s msg=%d: frame announced %llu bytes, only %ld arrived", wwhere(w), i, (unsigned long long) len, n);
+		free(buf);
+		return false;
+	}
+	if (m->id_open) {
+		if ((buf[0] & 0x80) == 0) {
+			WV(w, "out", "header-bytes", "%s msg=%d: request id word %08x has no high bit", wwhere(w), i, get_be32(buf));
+			free(buf);
+			return false;
+		}
+	} else if (m->wlen > 0 && memcmp(buf, m->wire, m->wlen) != 0) {
+		WV(w, "out", "header-bytes", "%s msg=%d: the %zu header bytes on the wire differ from the specified ones at offset %zu (got %02x)", wwhere(w), i, m->wlen, first_diff(buf, m->wire, m->wlen), buf[first_diff(buf, m->wire, m->wlen)]);
+		free(buf);
+		return false;
+	}
+	if (got_hdr != NULL) memcpy(got_hdr, buf, m->wlen);
+	if (m->blen > 0) {
+		uint8_t *wb = malloc(m->blen);
+		vf_fill(wb, m->blen, m->bkey);
+		if (memcmp(buf + m->wlen, wb, m->blen) != 0) {
+			WV(w, "out", "body-bytes", "%s msg=%d size=%zu: first difference at body offset %zu", wwhere(w), i, m->blen, first_diff(buf + m->wlen, wb, m->blen));
+			free(wb);
+			free(buf);
+			return false;
+		}
+		free(wb);
+	}
+	free(buf);
+	w->out_ok++;
+	return true;
+}
+
+// The application sends messages first..first+n-1 (n <= the send buffer),
+// then the peer reads n frames.
+static void
+wire_out(wctx *w, wmsg *ms, int first, int n, uint8_t *got_hdr)
+{
+	int rv;
+	for (int i = 0; i < n; i++) {
+		nng_msg *msg = wire_app_msg(w, &ms[i]);
+		if ((rv = send_one(w->s, msg, w->c.use_aio, w->aio)) != 0) {
+			nng_msg_free(msg);
+			// (refusing a message is "not at all", but nothing here
+			// gives a socket a reason to refuse)
+			WV(w, "out", "missing-frame", "%s msg=%d: send: %s", wwhere(w), first + i, nng_strerror(rv));
+			return;
+		}
+	}
+	for (int i = 0; i < n; i++) {
+		if (!wire_read_frame(w, &ms[i], first + i, got_hdr)) return;
+	}
+}
+
+// ---------------------------------------------------------------- wire: ws://
+// The peer is a raw websocket endpoint on a plain TCP socket.  As the SERVER
+// it answers the dialer's upgrade request and writes the "101" reply PLUS all
+// N (unmasked) frames in one write(), so that nng finds websocket frames in
+// the buffer of its HTTP connection right behind the reply and a frame
+// straddles the end of that buffer; as the CLIENT it sends masked frames once
+// it has the reply.  One websocket message = SP header || body.
+static uint32_t
+ws_rol(uint32_t v, int s)
+{
+	return (v << s) | (v >> (32 - s));
+}
+
+static void
+ws_sha1(const uint8_t *msg, size_t len, uint8_t out[20])
+{
+	uint32_t h[5] = { 0x67452301, 0xEFCDAB89, 0x98BADCFE, 0x10325476, 0xC3D2E1F0 };
+	size_t   total = ((len + 8) / 64 + 1) * 64;
+	uint8_t *m = calloc(total, 1);
+	memcpy(m, msg, len);
+	m[len] = 0x80;
+	uint64_t bits = (uint64_t) len * 8;
+	for (int i = 0; i < 8; i++) m[total - 1 - i] = (uint8_t) (bits >> (8 * i));
+	for (size_t off = 0; off < total; off += 64) {
+		uint32_t w[80];
+		for (int i = 0; i < 16; i++) w[i] = ((uint32_t) m[off + 4 * i] << 24) | ((uint32_t) m[off + 4 * i + 1] << 16) | ((uint32_t) m[off + 4 * i + 2] << 8) | m[off + 4 * i + 3];
+		for (int i = 16; i < 80; i++) w[i] = ws_rol(w[i - 3] ^ w[i - 8] ^ w[i - 14] ^ w[i - 16], 1);
+		uint32_t a = h[0], b = h[1], c = h[2], d = h[3], e = h[4];
+		for (int i = 0; i < 80; i++) {
+			uint32_t f, k;
+			if (i < 20) { f = (b & c) | (~b & d); k = 0x5A827999; }
+			else if (i < 40) { f = b ^ c ^ d; k = 0x6ED9EBA1; }
+			else if (i < 60) { f = (b & c) | (b & d) | (c & d); k = 0x8F1BBCDC; }
+			else { f = b ^ c ^ d; k = 0xCA62C1D6; }
+			uint32_t t = ws_rol(a, 5) + f + e + k + w[i];
+			e = d; d = c; c = ws_rol(b, 30); b = a; a = t;
+		}
+		h[0] += a; h[1] += b; h[2] += c; h[3] += d; h[4] += e;
+	}
+	free(m);
+	for (int i = 0; i < 5; i++) put_be32(out + 4 * i, h[i]);
+}
+
+static void
+ws_b64enc(const uint8_t *in, size_t n, char *out)
+{
+	static const char tab[] = "ABCDEFGHIJKLMNOPQRSTUVWXYZabcdefghijklmnopqrstuvwxyz0123456789+/";
+	size_t            o = 0;
+	for (size_t i = 0; i < n; i += 3) {
+		uint32_t v = (uint32_t) in[i] << 16;
+		if (i + 1 < n) v |= (uint32_t) in[i + 1] << 8;
+		if (i + 2 < n) v |= in[i + 2];
+		out[o++] = tab[(v >> 18) & 63];
+		out[o++] = tab[(v >> 12) & 63];
+		out[o++] = i + 1 < n ? tab[(v >> 6) & 63] : '=';
+		out[o++] = i + 2 < n ? tab[v & 63] : '=';
+	}
+	out[o] = 0;
+}
+
+static void
+ws_accept_for(const char *key, char out[32])
+{
+	char    cat[160];
+	uint8_t dig[20];
+	snprintf(cat, sizeof(cat), "%s258EAFA5-E914-47DA-95CA-C5AB0DC85B11", key);
+	ws_sha1((const uint8_t *) cat, strlen(cat), dig);
+	ws_b64enc(dig, 20, out);
+}
+
+// Read up to and including the empty line of an HTTP head; returns its length
+// (buf is NUL terminated, *total = bytes read), -1 if it never completes.
+static long
+ws_read_head(int fd, char *buf, size_t cap, size_t *total)
+{
+	size_t   n   = 0;
+	uint64_t end = vf_now_ns() + 10000ull * 1000000ull;
+	buf[0] = 0;
+	while (n < cap - 1) {
+		struct pollfd p    = { fd, POLLIN, 0 };
+		int64_t       left = ((int64_t) end - (int64_t) vf_now_ns()) / 1000000;
+		if (left <= 0 || poll(&p, 1, (int) left) <= 0) return -1;
+		ssize_t r = read(fd, buf + n, cap - 1 - n);
+		if (r < 0 && (errno == EINTR || errno == EAGAIN)) continue;
+		if (r <= 0) return -1;
+		n += (size_t) r;
+		buf[n] = 0;
+		char *e = strstr(buf, "\r\n\r\n");
+		if (e != NULL) {
+			*total = n;
+			return (long) (e + 4 - buf);
+		}
+	}
+	return -1;
+}
+
+static bool
+ws_header(const char *head, const char *name, char *out, size_t cap)
+{
+	size_t nl = strlen(name);
+	for (const char *p = strstr(head, "\r\n"); p != NULL; p = strstr(p + 2, "\r\n")) {
+		if (strncasecmp(p + 2, name, nl) == 0 && p[2 + nl] == ':') {
+			const char *v = p + 3 + nl;
+			size_t      o = 0;
+			while (*v == ' ' || *v == '\t') v++;
+			while (*v && *v != '\r' && o < cap - 1) out[o++] = *v++;
+			while (o > 0 && (out[o - 1] == ' ' || out[o - 1] == '\t')) o--;
+			out[o] = 0;
+			return true;
+		}
+	}
+	return false;
+}
+
+static uint8_t *
+ws_put_frame(uint8_t *p, bool fin, int op, bool masked, uint32_t mask, const uint8_t *data, size_t len)
+{
+	*p++ = (uint8_t) ((fin ? 0x80 : 0) | op);
+	uint8_t mb = masked ? 0x80 : 0;
+	if (len < 126) {
+		*p++ = (uint8_t) (mb | len);
+	} else if (len < 65536) {
+		*p++ = (uint8_t) (mb | 126);
+		*p++ = (uint8_t) (len >> 8);
+		*p++ = (uint8_t) len;
+	} else {
+		*p++ = (uint8_t) (mb | 127);
+		for (int b = 7; b >= 0; b--) *p++ = (uint8_t) ((uint64_t) len >> (8 * b));
+	}
+	if (masked) {
+		uint8_t mk[4];
+		put_be32(mk, mask);
+		memcpy(p, mk, 4);
+		p += 4;
+		for (size_t i = 0; i < len; i++) p[i] = data[i] ^ mk[i & 3];
+	} else if (len > 0) {
+		memcpy(p, data, len);
+	}
+	return p + len;
+}
+
+// 'pre' (the 101 reply, or nothing) followed by the N messages as websocket
+// frames: one frame each, or 2..5 fragments (FIN on the last), optionally
+// with PINGs in between.
+static uint8_t *
+ws_stream(wctx *w, const wmsg *ms, int n, const char *pre, size_t prelen, bool masked, size_t *lenp, size_t *ends)
+{
+	size_t cap = prelen + 16;
+	for (int i = 0; i < n; i++) cap += ms[i].wlen + ms[i].blen + 5 * 14 + 5 * 32;
+	uint8_t *buf = malloc(cap), *p = buf;
+	if (buf == NULL) vf_harness_fail("ws stream of %zu bytes", cap);
+	memcpy(p, pre, prelen);
+	p += prelen;
+	for (int i = 0; i < n; i++) {
+		size_t   pl  = ms[i].wlen + ms[i].blen;
+		uint8_t *pay = malloc(pl + 1);
+		memcpy(pay, ms[i].wire, ms[i].wlen);
+		vf_fill(pay + ms[i].wlen, ms[i].blen, ms[i].bkey);
+		int nfr = w->wsfrag ? 2 + (int) vf_below(&w->r, 4) : 1;
+		if ((size_t) nfr > pl) nfr = pl > 0 ? (int) pl : 1;
+		size_t off = 0;
+		for (int k = 0; k < nfr; k++) {
+			size_t left = pl - off, fl = left;
+			if (k < nfr - 1) {
+				// leave at least one byte for every later fragment
+				size_t maxl = left - (size_t) (nfr - 1 - k);
+				fl          = 1 + vf_below(&w->r, (uint32_t) maxl);
+			}
+			p = ws_put_frame(p, k == nfr - 1, k == 0 ? 2 : 0, masked, (uint32_t) vf_rand(&w->r), pay + off, fl);
+			off += fl;
+			if (nfr > 1) w->ws_fragments++;
+			if (w->wsfrag == 2 && k < nfr - 1 && vf_chance(&w->r, 1, 2)) {
+				uint8_t pd[8];
+				size_t  pn = vf_below(&w->r, 9);
+				vf_fill(pd, pn, vf_rand(&w->r));
+				p = ws_put_frame(p, true, 9, masked, (uint32_t) vf_rand(&w->r), pd, pn);
+				w->ws_pings++;
+			}
+		}
+		free(pay);
+		ends[i] = (size_t) (p - buf);
+	}
+	*lenp = (size_t) (p - buf);
+	if (*lenp > cap) vf_harness_fail("ws stream overflow");
+	return buf;
+}
+
+static void
+ws_flow(wctx *w, wmsg *ms)
+{
+	char   head[4096], url[96], key[64], proto[96], acc[32], pre[512];
+	size_t total = 0, prelen = 0;
+	long   hl;
+	int    rv, n = w->c.nmsgs;
+	w->fd = -1;
+	if (!w->nng_listens) {
+		// peer is the server
+		uint16_t port = 0;
+		int      lfd  = vf_tcp_listen(&port);
+		if (lfd < 0) vf_harness_fail("peer cannot listen on tcp: %s", strerror(errno));
+		snprintf(url, sizeof(url), "ws://127.0.0.1:%u/vfw", port);
+		if ((rv = nng_dial(w->s, url, NULL, NNG_FLAG_NONBLOCK)) != 0) vf_harness_fail("dial %s: %s", url, nng_strerror(rv));
+		w->fd = vf_tcp_accept(lfd, 10000);
+		close(lfd);
+		if (w->fd < 0) vf_harness_fail("%s: the dialer never connected", wwhere(w));
+		if ((hl = ws_read_head(w->fd, head, sizeof(head), &total)) < 0) vf_harness_fail("%s: no complete upgrade request", wwhere(w));
+		if (strncmp(head, "GET ", 4) != 0 || !ws_header(head, "Sec-WebSocket-Key", key, sizeof(key)) || !ws_header(head, "Sec-WebSocket-Protocol", proto, sizeof(proto))) {
+			vf_harness_fail("%s: upgrade request without key or subprotocol", wwhere(w));
+		}
+		ws_accept_for(key, acc);
+		prelen = (size_t) snprintf(pre, sizeof(pre), "HTTP/1.1 101 Switching Protocols\r\nUpgrade: websocket\r\nConnection: Upgrade\r\nSec-WebSocket-Accept: %s\r\nSec-WebSocket-Protocol: %s\r\n\r\n", acc, proto);
+	} else {
+		// peer is the client: request, wait for the reply (RFC 6455 4.1:
+		// no data before the server's handshake), then frames
+		nng_listener l;
+		const char  *pn = NULL;
+		int          port = 0;
+		uint8_t      rnd[16];
+		if ((rv = nng_listen(w->s, "ws://127.0.0.1:0/vfw", &l, 0)) != 0) vf_harness_fail("listen ws: %s", nng_strerror(rv));
+		if ((rv = nng_listener_get_int(l, NNG_OPT_BOUND_PORT, &port)) != 0) vf_harness_fail("bound port: %s", nng_strerror(rv));
+		if (nng_socket_proto_name(w->s, &pn) != 0) vf_harness_fail("proto name");
+		if ((w->fd = vf_tcp_connect((uint16_t) port, 10000)) < 0) vf_harness_fail("%s: cannot connect to the ws listener", wwhere(w));
+		vf_fill(rnd, sizeof(rnd), w->c.key ^ 0x77);
+		ws_b64enc(rnd, 16, key);
+		ws_accept_for(key, acc);
+		int rl = snprintf(head, sizeof(head), "GET /vfw HTTP/1.1\r\nHost: 127.0.0.1:%d\r\nUpgrade: websocket\r\nConnection: Upgrade\r\nSec-WebSocket-Key: %s\r\nSec-WebSocket-Version: 13\r\nSec-WebSocket-Protocol: %s.sp.nanomsg.org\r\n\r\n", port, key, pn);
+		if (vf_fd_write_all(w->fd, head, (size_t) rl, 10000) != 0) vf_harness_fail("%s: cannot send the upgrade request", wwhere(w));
+		if ((hl = ws_read_head(w->fd, head, sizeof(head), &total)) < 0) vf_harness_fail("%s: upgrade request was not answered", wwhere(w));
+		if (strncmp(head, "HTTP/1.1 101", 12) != 0 || !ws_header(head, "Sec-WebSocket-Accept", proto, sizeof(proto)) || strcmp(proto, acc) != 0) {
+			vf_harness_fail("%s: upgrade refused: %.40s", wwhere(w), head);
+		}
+	}
+	size_t   len, *ends = malloc(sizeof(size_t) * (size_t) n);
+	uint8_t *buf = ws_stream(w, ms, n, pre, prelen, w->nng_listens, &len, ends);
+	long     cut = 0;
+	if (w->seg == SEG_CUT) cut = len >= 2 ? (long) (1 + vf_below(&w->r, (uint32_t) len - 1)) : 0;
+	bool behind = prelen > 0 && (w->seg == SEG_ONE || (size_t) cut > prelen);
+	wire_in_run(w, ms, 0, n, buf, len, ends, cut, -1);
+	if (!w->failed) {
+		if (behind) w->ws_behind++;
+		// (the reply is about 170 bytes; nng reads up to 8160 at once)
+		if (behind && len > 8160 && (w->seg == SEG_ONE || cut > 8160)) w->ws_straddle++;
+	}
+	free(buf);
+	free(ends);
+}
+
+static void
+wire_phase_in(wctx *w)
+{
+	int    n = w->c.nmsgs, step = w->e->in == WF_STREAM ? n : 1;
+	wmsg  *ms = calloc((size_t) n, sizeof(wmsg));
+	for (int i = 0; i < n; i++) wire_gen(w, 0, i, &ms[i]);
+	for (int base = 0; base < n && !w->failed; base += step) wire_in(w, ms + base, base, step);
+	free(ms);
+}
+
+static void
+wire_phase_out(wctx *w)
+{
+	int  n = w->c.nmsgs, step = w->e->out == WF_STREAM ? 4 : 1;
+	wmsg ms[4];
+	for (int base = 0; base < n && !w->failed; base += step) {
+		int k = n - base < step ? n - base : step;
+		for (int i = 0; i < k; i++) wire_gen(w, 1, base + i, &ms[i]);
+		wire_out(w, ms, base, k, NULL);
+	}
+}
+
+static void
+wire_added_cb(nng_pipe p, nng_pipe_ev ev, void *arg)
+{
+	(void) p;
+	(void) ev;
+	atomic_fetch_add(&((wctx *) arg)->added, 1);
+}
+
+// Bring up the connection and shake hands; everything that goes wrong here on
+// a healthy library is the harness's problem.
+static void
+wire_connect(wctx *w)
+{
+	char     url[160];
+	int      rv, lfd = -1;
+	uint16_t port = 0, got = 0;
+	w->fd = -1;
+	switch (w->c.tran) {
+	case VF_T_TCP:
+		if (w->nng_listens) {
+			nng_listener l;
+			int          p = 0;
+			if ((rv = nng_listen(w->s, "tcp://127.0.0.1:0", &l, 0)) != 0) vf_harness_fail("listen tcp: %s", nng_strerror(rv));
+			if ((rv = nng_listener_get_int(l, NNG_OPT_BOUND_PORT, &p)) != 0) vf_harness_fail("bound port: %s", nng_strerror(rv));
+			w->fd = vf_tcp_connect((uint16_t) p, 10000);
+		} else {
+			if ((lfd = vf_tcp_listen(&port)) < 0) vf_harness_fail("peer cannot listen on tcp: %s", strerror(errno));
+			snprintf(url, sizeof(url), "tcp://127.0.0.1:%u", port);
+			if ((rv = nng_dial(w->s, url, NULL, NNG_FLAG_NONBLOCK)) != 0) vf_harness_fail("dial %s: %s", url, nng_strerror(rv));
+			w->fd = vf_tcp_accept(lfd, 10000);
+		}
+		break;
+	case VF_T_IPC:
+		vf_url(VF_T_IPC, url, sizeof(url)); // ipc:///tmp/...
+		if (w->nng_listens) {
+			if ((rv = nng_listen(w->s, url, NULL, 0)) != 0) vf_harness_fail("listen %s: %s", url, nng_strerror(rv));
+			w->fd = vf_unix_connect(url + 6, 10000);
+		} else {
+			if ((lfd = vf_unix_listen(url + 6)) < 0) vf_harness_fail("peer cannot listen on %s: %s", url + 6, strerror(errno));
+			if ((rv = nng_dial(w->s, url, NULL, NNG_FLAG_NONBLOCK)) != 0) vf_harness_fail("dial %s: %s", url, nng_strerror(rv));
+			w->fd = vf_tcp_accept(lfd, 10000);
+			unlink(url + 6);
+		}
+		break;
+	default: {
+		int          fds[2];
+		nng_listener l;
+		if (socketpair(AF_UNIX, SOCK_STREAM | SOCK_CLOEXEC, 0, fds) != 0) vf_harness_fail("socketpair: %s", strerror(errno));
+		if ((rv = nng_listener_create(&l, w->s, "socket://")) != 0 || (rv = nng_listener_start(l, 0)) != 0 ||
+		    (rv = nng_listener_set_int(l, NNG_OPT_SOCKET_FD, fds[0])) != 0) {
+			vf_harness_fail("socket:// listener: %s", nng_strerror(rv));
+		}
+		w->fd = fds[1];
+		break;
+	}
+	}
+	if (lfd >= 0) close(lfd); // (one connection only: a re-dial finds nobody)
+	if (w->fd < 0) vf_harness_fail("%s: no connection with the peer", wwhere(w));
+	if ((rv = vf_sp_handshake(w->fd, w->vp->peer, &got, 10000)) != 0) vf_harness_fail("%s: SP handshake did not complete (%d)", wwhere(w), rv);
+	if (got != w->vp->self) vf_harness_fail("%s: nng announced protocol 0x%x, expected 0x%x", wwhere(w), got, w->vp->self);
+	// a protocol may drop (or refuse) what is sent before its pipe has been
+	// started; ADD_POST comes after that
+	for (int i = 0; atomic_load(&w->added) < 1; i++) {
+		if (i > 10000) vf_harness_fail("%s: pipe was never added after a complete handshake", wwhere(w));
+		vf_msleep(1);
+	}
+}
+
+static void
+run_wire_case(long idx, wctx *w)
+{
+	const wentry *e = w->e;
+	int           rv;
+	vf_case_begin(idx, "wire tran=%s proto=%s %s peer=%s/%ld wsfrag=%d plan=%s eagain=%d n=%d max=%zu aio=%d key=%llx", vf_tran_names[w->c.tran], e->name, w->nng_listens ? "nng-listens" : "nng-dials", seg_names[w->seg], w->segparam, w->wsfrag, w->c.plan, w->c.eagain, w->c.nmsgs, w->c.maxsz, w->c.use_aio, (unsigned long long) w->c.key);
+	w->aio = NULL;
+	if (w->c.use_aio && nng_aio_alloc(&w->aio, NULL, NULL) != 0) vf_harness_fail("aio alloc");
+	vf_io_plan(VF_IO_FULL, 0, VF_IO_FULL, 0, w->c.key);
+	vf_io_eagain_every(0);
+	if ((rv = (e->raw ? w->vp->open_raw : w->vp->open)(&w->s)) != 0) vf_harness_fail("open %s: %s", e->name, nng_strerror(rv));
+	nng_socket_set_ms(w->s, NNG_OPT_SENDTIMEO, 10000);
+	nng_socket_set_ms(w->s, NNG_OPT_RECVTIMEO, 10000);
+	// windows of 4 outgoing messages must fit without a reader
+	nng_socket_set_int(w->s, NNG_OPT_SENDBUF, 8);
+	nng_socket_set_int(w->s, NNG_OPT_RECVBUF, w->ws ? 32 : 8);
+	nng_socket_set_size(w->s, NNG_OPT_RECVMAXSZ, 0);
+	nng_socket_set_int(w->s, NNG_OPT_MAXTTL, 15); // (where a TTL applies)
+	if (!strcmp(e->proto, "sub")) nng_sub0_socket_subscribe(w->s, "", 0);
+	if (!strcmp(e->name, "req")) nng_socket_set_ms(w->s, NNG_OPT_REQ_RESENDTIME, NNG_DURATION_INFINITE);
+	if (!strcmp(e->name, "surveyor")) nng_socket_set_ms(w->s, NNG_OPT_SURVEYOR_SURVEYTIME, 60000);
+	atomic_store(&w->added, 0);
+	nng_pipe_notify(w->s, NNG_PIPE_EV_ADD_POST, wire_added_cb, w);
+	// the plan is active during connection setup too (handshake bytes)
+	vf_io_plan(w->c.smode, w->c.sparam, w->c.rmode, w->c.rparam, w->c.key);
+	vf_io_eagain_every(w->c.eagain);
+	long ss0 = vf_io_short_sends(), sr0 = vf_io_short_recvs();
+	if (w->ws) {
+		wmsg *ms = calloc((size_t) w->c.nmsgs, sizeof(wmsg));
+		for (int i = 0; i < w->c.nmsgs; i++) wire_gen(w, 0, i, &ms[i]);
+		ws_flow(w, ms);
+		free(ms);
+	} else {
+		wire_connect(w);
+		ss0 = vf_io_short_sends();
+		sr0 = vf_io_short_recvs();
+	}
+
+	if (w->ws) {
+		// (done above)
+	} else if (e->rounds == WR_PHASES) {
+		// raw REP / RESPONDENT learn the pipe id from what they receive
+		bool in_first = e->hk == WH_XREP || (vf_mix64(w->c.key ^ 0x5a5a) & 1);
+		for (int ph = 0; ph < 2 && !w->failed; ph++) {
+			bool in = (ph == 0) == in_first;
+			if (in && e->in != WF_NONE) wire_phase_in(w);
+			if (!in && e->out != WF_NONE) wire_phase_out(w);
+		}
+	} else {
+		for (int i = 0; i < w->c.nmsgs && !w->failed; i++) {
+			wmsg mi, mo;
+			wire_gen(w, 0, i, &mi);
+			wire_gen(w, 1, i, &mo);
+			if (e->rounds == WR_OUT_IN) {
+				// request out, the peer answers under the same id
+				wire_out(w, &mo, i, 1, mi.wire);
+				if (!w->failed) wire_in(w, &mi, i, 1);
+			} else {
+				// request in, the reply must carry its backtrace
+				wire_in(w, &mi, i, 1);
+				memcpy(mo.wire, mi.wire, mi.wlen);
+				mo.wlen = mi.wlen;
+				if (!w->failed) wire_out(w, &mo, i, 1, NULL);
+			}
+		}
+	}
+	if (!w->failed) {
+		// nothing more may come out of either end once the library is idle
+		nng_msg      *m = NULL;
+		struct pollfd p = { w->fd, POLLIN, 0 };
+		uint8_t       extra[64];
+		ssize_t       n;
+		vf_quiesce(1, 200);
+		if (nng_recvmsg(w->s, &m, NNG_FLAG_NONBLOCK) == 0) {
+			WV(w, "in", "extra", "%s: an extra message of %zu bytes after the %d that the peer sent", wwhere(w), nng_msg_len(m), w->c.nmsgs);
+			nng_msg_free(m);
+		}
+		// (a websocket peer gets PONGs, which are not judged here)
+		if (!w->ws && poll(&p, 1, 20) > 0 && (n = read(w->fd, extra, sizeof(extra))) > 0) {
+			WV(w, "out", "extra-bytes", "%s: %zd or more bytes after the last frame, starting %02x %02x", wwhere(w), n, extra[0], n > 1 ? extra[1] : 0);
+		}
+		vf_stat("wire_extra_probes", 1);
+	}
+	long ds = vf_io_short_sends() - ss0, dr = vf_io_short_recvs() - sr0;
+	vf_io_plan(VF_IO_FULL, 0, VF_IO_FULL, 0, 0);
+	vf_io_eagain_every(0);
+	nng_socket_close(w->s);
+	close(w->fd);
+	if (w->aio) nng_aio_free(w->aio);
+
+	char k[48];
+	snprintf(k, sizeof(k), "wire_verified_%s", vf_tran_names[w->c.tran]);
+	vf_stat(k, w->in_ok + w->out_ok);
+	vf_stat("wire_in_verified", w->in_ok);
+	vf_stat("wire_out_verified", w->out_ok);
+	vf_stat("wire_verified", w->in_ok + w->out_ok);
+	if (w->c.use_aio) vf_stat("wire_verified_aio_form", w->in_ok + w->out_ok);
+	vf_stat("wire_coalesced_streams", w->coalesced);
+	vf_stat("wire_peer_cuts", w->cuts);
+	vf_stat("wire_peer_cuts_prefix", w->cuts_prefix);
+	vf_stat("wire_peer_cuts_header", w->cuts_header);
+	vf_stat("wire_peer_cuts_body", w->cuts_body);
+	vf_stat("wire_peer_writes", w->writes);
+	vf_stat(w->nng_listens ? "wire_cases_nng_listens" : "wire_cases_nng_dials", 1);
+	vf_stat("wire_short_sends", ds);
+	vf_stat("wire_short_recvs", dr);
+	if (w->ws) {
+		vf_stat("wire_ws_frames_behind_handshake", w->ws_behind);
+		vf_stat("wire_ws_stream_beyond_http_buffer", w->ws_straddle);
+		vf_stat("wire_ws_fragments", w->ws_fragments);
+		vf_stat("wire_ws_pings", w->ws_pings);
+		vf_stat(w->nng_listens ? "wire_ws_cases_nng_listens" : "wire_ws_cases_nng_dials", 1);
+	}
+	if (!w->failed) vf_class("wire/%s/%s/%s%s/%s%s", vf_tran_names[w->c.tran], e->name, seg_names[w->seg], w->wsfrag == 2 ? "+frag+ping" : w->wsfrag ? "+frag" : "", w->c.plan, ds || dr ? "" : "-noshort");
+	vf_stat("cases", 1);
+	vf_watchdog(120);
+	vf_nng_fini("C01");
+	vf_nng_init(4, 2, 2);
+}
+
+static void
+wire_main(void)
+{
+	static const int trans[] = { VF_T_TCP, VF_T_IPC, VF_T_SOCKFD };
+	bool             thorough = vf_tier == 1;
+	for (long idx = 0; idx < vf_cases; idx++) {
+		if (!vf_want_case(idx)) continue;
+		wctx w;
+		memset(&w, 0, sizeof(w));
+		vf_rng_seed(&w.r, vf_seed, (uint64_t) idx);
+		vf_rng *r = &w.r;
+		casecfg *c = &w.c;
+		uint32_t tsel = vf_below(r, 4);
+		w.ws    = tsel == 3;
+		c->tran = w.ws ? VF_T_WS : trans[tsel];
+		w.ipc   = c->tran == VF_T_IPC;
+		w.e     = w.ws ? &wents_ws[vf_below(r, NWENTS_WS)] : &wents[vf_below(r, NWENTS)];
+		if ((w.vp = vf_proto_by_name(w.e->proto)) == NULL) vf_harness_fail("no protocol %s", w.e->proto);
+		w.nng_listens = c->tran == VF_T_SOCKFD || vf_chance(r, 1, 2);
+		c->key        = vf_rand(r);
+		c->nmsgs      = (int) vf_range(r, 3, 24);
+		c->maxsz      = thorough && vf_chance(r, 1, 10) ? (4u << 20) : vf_chance(r, 1, 6) ? (256u << 10) : 70000;
+		// what the peer does with the stream it writes
+		w.seg = (int) vf_below(r, SEG_N);
+		switch (w.seg) {
+		case SEG_DRIBBLE: c->maxsz = c->maxsz > 3000 ? 3000 : c->maxsz; break;
+		case SEG_CHUNKS:
+			w.segparam = vf_chance(r, 1, 2) ? (long) vf_range(r, 2, 40) : (long) vf_range(r, 41, 5000);
+			if (w.segparam <= 40 && c->maxsz > 20000) c->maxsz = 20000;
+			break;
+		default: break;
+		}
+		// and what happens to nng's own reads and writes at the same time
+		switch (vf_below(r, 7)) {
+		case 0: c->smode = c->rmode = VF_IO_FULL; c->plan = "full"; break;
+		case 1: c->smode = c->rmode = VF_IO_DRIBBLE; c->sparam = c->rparam = 1; c->plan = "dribble1"; c->maxsz = c->maxsz > 3000 ? 3000 : c->maxsz; break;
+		case 2: c->smode = c->rmode = VF_IO_RANDOM; c->sparam = c->rparam = vf_range(r, 2, 40); c->plan = "random-small"; c->maxsz = c->maxsz > 70000 ? 70000 : c->maxsz; break;
+		case 3: c->smode = VF_IO_RANDOM; c->sparam = 5000; c->rmode = VF_IO_RANDOM; c->rparam = 3000; c->plan = "random-large"; break;
+		case 4: c->smode = VF_IO_DRIBBLE; c->sparam = vf_range(r, 1, 9); c->rmode = VF_IO_FULL; c->plan = "send-dribble"; c->maxsz = c->maxsz > 5000 ? 5000 : c->maxsz; break;
+		case 5: c->smode = VF_IO_FULL; c->rmode = VF_IO_DRIBBLE; c->rparam = vf_range(r, 1, 9); c->plan = "recv-dribble"; c->maxsz = c->maxsz > 5000 ? 5000 : c->maxsz; break;
+		default: c->smode = c->rmode = VF_IO_CUT_ONCE; c->sparam = vf_range(r, 1, 120); c->rparam = vf_range(r, 1, 120); c->plan = "cut-once"; break;
+		}
+		if (vf_chance(r, 1, 5) && c->smode != VF_IO_FULL) c->eagain = (int) vf_range(r, 3, 9);
+		if (c->maxsz > (1u << 20) && c->nmsgs > 6) c->nmsgs = 6;
+		c->use_aio = vf_chance(r, 1, 3);
+		if (w.ws) {
+			// 2..40 KB behind the reply, so that frames sit around the
+			// end of the 8160-byte buffer of nng's HTTP connection
+			static const size_t wsmax[] = { 800, 3000, 6000, 12000 };
+			c->maxsz      = wsmax[vf_below(r, 4)];
+			if (c->nmsgs < 6) c->nmsgs += 6;
+			w.nng_listens = vf_chance(r, 1, 3);
+			w.seg         = vf_chance(r, 3, 5) ? SEG_ONE : SEG_CUT;
+			w.segparam    = 0;
+			w.wsfrag      = (int) vf_below(r, 3);
+			if (vf_chance(r, 1, 2)) {
+				// the first read must be able to take everything
+				c->smode = c->rmode = VF_IO_FULL;
+				c->sparam = c->rparam = 0;
+				c->eagain = 0;
+				c->plan   = "full";
+			}
+		}
+		run_wire_case(idx, &w);
+		if ((idx & 31) == 0) vf_sample("{\"mode\":\"wire\",\"tran\":\"%s\",\"proto\":\"%s\",\"nng\":\"%s\",\"peer_segmentation\":\"%s\",\"nng_plan\":\"%s\",\"msgs\":%d,\"maxsize\":%zu,\"eagain_every\":%d,\"in_verified\":%ld,\"out_verified\":%ld}", vf_tran_names[c->tran], w.e->name, w.nng_listens ? "listens" : "dials", seg_names[w.seg], c->plan, c->nmsgs, c->maxsz, c->eagain, w.in_ok, w.out_ok);
+	}
+}
+
 static char planbuf[64];
 
 int
@@ -354,7 +1495,7 @@ main(int argc, char **argv)
 			// quick walks that stretch for one pair, thorough everything
 			int minoff = (t == VF_T_WS && !thorough) ? 130 : 1;
 			int maxoff = t == VF_T_WS ? (thorough ? 700 : 430) : 120;
-			for (int p = 0; p < NPAIRS - 1; p++) {
+			for (int p = 0; p < NPAIRS_CUTS; p++) {
 				if (t == VF_T_WS && !thorough && p != 1) continue;
 				for (int side = 0; side < 2; side++) {
 					for (int off = minoff; off <= maxoff; off++, idx++) {
@@ -371,6 +1512,8 @@ main(int argc, char **argv)
 				}
 			}
 		}
+	} else if (!strcmp(vf_mode, "wire")) {
+		wire_main();
 	} else {
 		// sampled plans over all transports / pairs / sizes
 		for (long i = 0; i < vf_cases; i++, idx++) {
